@@ -200,7 +200,7 @@ def judge(ctx, case, line, tokens, kinds, res, app, label):
     if "nointeract" in kinds:
         if rec["answer"] != "dflt" or res["input_left"] != "typed\n":
             fail("C09.no-interaction", "default answer, input unread", [rec["answer"], res["input_left"]], sig="question")
-        if "q?" in err or "q?" in out:
+        if "q?" in err:  # the prompt goes to the error output (the trace on stdout may quote harness source)
             fail("C09.no-interaction", "no prompt written", [out, err], sig="prompt")
     elif rec["answer"] != "typed":
         fail("C09.no-interaction", "typed", rec["answer"], sig="interactive-answer")
